@@ -13,7 +13,7 @@ from ..flow import call_name, norm
 from ..index import AnalysisError, walk_local
 from ..lib import cfg_of, defs_of, edge_leads_only_to_raise, witness
 from .C01 import (additions, check_wrapper_order_rule, closure_defs, conditional_in, enclosing_iteration, facts, find_expr,
-                  find_stores, is_signature, known, resolve, returned_def, rnorm, signature_walk)
+                  find_stores, is_signature, known, names_it, one_per_item, resolve, returned_def, rnorm, signature_walk)
 
 RH = "pint.registry_helpers"
 
@@ -117,16 +117,11 @@ def _arity_rule(ck, ix, f, q, what, declared):
 
 def _one_per_declared(name, fi):
     """`name` (a free variable of the decorator) holds one entry per declared specification: the parameter `args` itself
-    or a list comprehension / list(map(...)) over `args` without filter."""
+    or a list built with exactly one entry per element of `args` (comprehension, map, or append loop)."""
     if name == "args":
         return True
-    for v, owner in closure_defs(fi, name):
-        if isinstance(v, ast.ListComp) and len(v.generators) == 1 and not v.generators[0].ifs and norm(v.generators[0].iter) == "args":
-            continue
-        if shape.match("list(map(_F, args))", v) is not None:
-            continue
-        return False
-    return bool(closure_defs(fi, name))
+    owners = {id(o): o for _, o in closure_defs(fi, name)}
+    return len(owners) == 1 and one_per_item(next(iter(owners.values())), name, "args") is not None
 
 
 # ---------------------------------------------------------------------------------------------------------------------
@@ -372,7 +367,7 @@ def run(ck, ix, tier):
     ok = len(app) == 1 and len(back) == 1 and shape.match("kw[_P]", app[0]) is not None
     if ok:
         sa_, sb_ = signature_walk(app[0], c, npos), signature_walk(back[0].value, c, npos)
-        ok = sa_ is not None and sb_ is not None and sa_[2] and sb_[2] and norm(app[0].slice) == sa_[0] and norm(back[0].targets[0].slice) == sb_[0] \
+        ok = sa_ is not None and sb_ is not None and sa_[2] and sb_[2] and names_it(app[0].slice, c.node, sa_[0]) and names_it(back[0].targets[0].slice, c.node, sb_[0]) \
             and rnorm(back[0].value, c.node) in [f"values[{i_}]" for i_ in sb_[1]]
         # `len(values)` must be read before anything is appended: only through a name assigned at the top of the function
         grow = min([x.lineno for x in app] + [l.lineno for l in (l1, l2, l3)])
@@ -389,28 +384,14 @@ def run(ck, ix, tier):
     ck.floor("G-PROV", len(fills), 1, "stores into kwargs in _apply_defaults")
     okf = True
     for st, b in fills:
-        it = enclosing_iteration(st, fa.node)
-        e = resolve(it[1], fa.node) if it else None
-        m = shape.match("enumerate(_X)", e) if e is not None else None
-        t2 = shape.match("(_I, _P)", it[0]) if m is not None else None
-        if t2 is None:
+        sw = signature_walk(st, fa, "len(args)")
+        if sw is None:
             okf = False
             continue
-        I = t2["_I"]
-        if m["_X"] == "sig.parameters.values()":
-            P, K = t2["_P"], f"{t2['_P']}.name"
-        elif m["_X"] == "sig.parameters.items()" and shape.match("(_K, _P)", _expr(t2["_P"])) is not None:
-            kp = shape.match("(_K, _P)", _expr(t2["_P"]))
-            P, K = kp["_P"], kp["_K"]
-        elif m["_X"] in ("sig.parameters", "sig.parameters.keys()"):
-            P, K = f"sig.parameters[{t2['_P']}]", t2["_P"]
-        else:
-            okf = False
-            continue
-        key_ok = b["_K"] in (K, f"{P}.name") and rnorm(st.value, fa.node) == f"{P}.default"
-        absent = any(known(st, fa.node, pat, tr) is not None for pat, tr in ((f"{I} >= len(args)", True), (f"len(args) <= {I}", True), (f"{I} < len(args)", False), (f"len(args) > {I}", False)))
-        has_default = any(known(st, fa.node, pat, False) is not None for pat in (f"{P}.default == Parameter.empty", f"{P}.default is Parameter.empty", f"Parameter.empty == {P}.default", f"{P}.default == {P}.empty", f"{P}.default is {P}.empty"))
-        not_passed = any(known(st, fa.node, f"{k_} in kwargs", False) is not None for k_ in (K, f"{P}.name"))
+        names, _index, absent, objs = sw
+        key_ok = names_it(st.targets[0].slice, fa.node, names) and any(rnorm(st.value, fa.node) == f"{P}.default" for P in objs)
+        has_default = any(known(st, fa.node, pat, False) is not None for P in objs for pat in (f"{P}.default == Parameter.empty", f"{P}.default is Parameter.empty", f"Parameter.empty == {P}.default", f"{P}.default == {P}.empty", f"{P}.default is {P}.empty"))
+        not_passed = any(known(st, fa.node, f"{k_} in kwargs", False) is not None for k_ in names)
         okf = okf and key_ok and absent and has_default and not_passed
     ck.check(okf, "G-PROV", "_apply_defaults|only-absent-parameters", fa.loc(), "defaults fill only parameters that were not passed", "_apply_defaults no longer restricts itself to absent parameters with a default")
 
@@ -558,12 +539,16 @@ def run(ck, ix, tier):
     va, kwa = (g.node.args.vararg.arg if g.node.args.vararg else "?"), (g.node.args.kwarg.arg if g.node.args.kwarg else "?")
     fwd = [r for r in shape.returns_of(g.node) if rnorm(r.value, g.node) == f"{func}(*{va}, **{kwa})"]
     ck.check(bool(fwd) and not find_stores(g.node, va) and not find_stores(g.node, kwa), "G-PROV", "check.wrapper|original-arguments-forwarded", g.loc(), "the original arguments are forwarded unchanged", "check no longer forwards the original arguments")
+    # DIMS = the local of check that the wrapper zips with the arguments: one entry per element of `args`, None kept,
+    # anything else parsed with ureg.get_dimensionality
     okd = False
-    for lc in [x for x in walk_local(f.node) if isinstance(x, ast.ListComp) and norm(x.generators[0].iter) == "args" and isinstance(x.elt, ast.IfExp)]:
-        v = norm(lc.generators[0].target)
-        for p_, edge in shape.atoms(lc.elt.test):
-            none_side, other_side = (lc.elt.body, lc.elt.orelse) if edge == "t" else (lc.elt.orelse, lc.elt.body)
-            okd = okd or (norm(p_) == f"{v} is None" and norm(none_side) == "None" and norm(other_side) == f"ureg.get_dimensionality({v})")
+    dims_names = {b["_D"] for l in zl for b in [shape.match("zip(_D, _A)", resolve(l.iter, g.node))] if b is not None}
+    for nm in sorted(dims_names):
+        for elt, v in (one_per_item(f, nm, "args") or []):
+            if isinstance(elt, ast.IfExp):
+                for p_, edge in shape.atoms(elt.test):
+                    none_side, other_side = (elt.body, elt.orelse) if edge == "t" else (elt.orelse, elt.body)
+                    okd = okd or (norm(p_) == f"{v} is None" and norm(none_side) == "None" and norm(other_side) == f"ureg.get_dimensionality({v})")
     ck.check(okd, "G-PROV", "check|declared-dimensions", f.loc(), "declared dimensions parsed, None kept", "check no longer parses each declared dimension with ureg.get_dimensionality (keeping None)")
     return EXPLANATION
 
